@@ -13,7 +13,8 @@ def run(chk):
                 'trash directory, home fallback across volumes with its per-file copy and delete steps, names too long for their '
                 '.trashinfo, and two or three arguments in one invocation); the projected '
                 'on-disk state after the kill is judged by TLC (FsTrace): payload present => info present, complete and '
-                'parseable; entry complete at its place or complete under files/. (3) the same for a kill by interrupt: '
+                'parseable; entry complete at its place or complete under files/. (4) each uninterrupted run, every operation observed, is validated as a behaviour of PutOps.tla (PutStateTrace, copy path '
+                'included). (3) the same for a kill by interrupt: '
                 'KeyboardInterrupt (Ctrl-C) raised immediately before operation k, and on the return of operation k (where '
                 'Python delivers a signal that arrived during the system call), so that exception handlers and finally '
                 'blocks run before the process ends. distinct = (scenario, kind of kill, k)')
@@ -43,6 +44,28 @@ def run(chk):
     opcommon.judge(chk, 'crash', items, lambda it: it['obs'], lambda it: '%s%s:%s' % (it['scen'], '' if it['mode'] == 'kill' else ':' + it['mode'], (it['at'][0] or 'end')),
                    lambda it: ['InfoBeforePayload', 'NothingLost', 'NoOverwrite', 'UniqueOwnership'],
                    what_of=lambda it: 'scenario %s %s operation %s (%s): %s' % (it['scen'], {'kill': 'killed before', 'intr': 'interrupted (Ctrl-C) before', 'intr_after': 'interrupted (Ctrl-C) on return of'}[it['mode']], it['k'], it['at'], it['obs']['state']))
+    # design conformance, copy path included: the distinct on-disk states of each uninterrupted run (every operation a
+    # lock-step point) form a behaviour of PutOps.tla (PutStateTrace).  A rejection is reported as DRIFT, not as a violation:
+    # the property itself is decided program-free by the invariants on the post-kill states above.
+    from harness import opspec
+    trs = tt.pmap(opdrivers.put_state_trace, [(scen, chk.seed) for scen in opdrivers.SINGLE_SCENARIOS])
+    acc_n = 0
+    for t in trs:
+        c = t['consts']
+        vr, acc = opspec.validate_put_state_traces([t['states']], c['procs'], preinfo=[tuple(x) for x in c['preinfo']],
+                                                   prepay=[tuple(x) for x in c['prepay']], dirs_exist=c['dirs_exist'],
+                                                   copy_cands=c['copy_cands'], toolong=c['toolong'], file_procs=c['file_procs'],
+                                                   link_procs=c['link_procs'], extra_slots=c['extra_slots'])
+        chk.add_tlc('PutStateTrace:' + t['scen'], vr, constants='states=%d operations=%d' % (len(t['states']), t['nops']))
+        chk.traces += 1
+        chk.count('design-conformance', 1, key=t['scen'], nontrivial=True)
+        if vr.ok and 1 in acc:
+            acc_n += 1
+        elif vr.ok:
+            print('DRIFT property=C05 scenario=%s: the sequence of on-disk states of the uninterrupted run is not a behaviour of '
+                  'PutOps.tla' % t['scen'])
+            chk.notes.append('DRIFT: state sequence of %s rejected by PutStateTrace' % t['scen'])
+    chk.stage_stats.setdefault('design-conformance', {}).update({'scenarios': len(trs), 'accepted': acc_n})
     chk.exhaustive = True
 
 
